@@ -256,6 +256,9 @@ theorem C09_sort_canonical (K : Consts) :
     rw [round2_strip]
     exact canonReorder_perm _ _
 
+/-- the cap of the reorder round is HarfBuzz's `HB_OT_SHAPE_MAX_COMBINING_MARKS` -/
+theorem C09_max_combining_marks : genK.maxMarks = 32 := rfl
+
 /-- the sort does reorder: acute (230) before dot below (220) is swapped, and the clusters are merged -/
 example :
     let mk (cp cl ccc : Nat) : Info := { cp := cp, mask := 0, cluster := cl, gidx := 0, props := { cls := 1, hi := ccc } }
@@ -299,6 +302,36 @@ theorem C09_recompose_step (comp : Nat → Nat → Option Nat) (has : Nat → Bo
       split <;> simp_all
     · rw [recomposeSpec]
       split <;> simp_all
+
+/-! ## one cluster, all three rounds -/
+
+/-- **A buffer that is one cluster `base + marks`** (no variation selector): every record is decomposed
+    by `decompose_current_character` (fully, unless the mode is NONE; `C09_single` / `decompose_*` say what
+    that outputs per character), the result is reordered (`C09_sort_canonical`), CGJs are unhidden, and in
+    the composing modes the third round runs (`C09_recompose`).  This is the composition of the rounds the
+    other theorems describe one by one; in particular a supported precomposed base is *not* kept as is
+    when marks follow, it is decomposed and recomposed as far as the font allows. -/
+theorem C09_cluster (U : UData) (F : Font) (K : Consts) (fuel pref : Nat)
+    (s m : Info) (ms : List Info) (flags : Nat)
+    (hm : ∀ x ∈ m :: ms, x.isMark = true) (hvs : ∀ x ∈ s :: m :: ms, U.isVS x.cp = false) :
+    normalize U F K fuel pref (s :: m :: ms) flags =
+      match decomposeRun U F K fuel (pref == 0) (s :: m :: ms) flags with
+      | none => none
+      | some (o, f) =>
+        if pref = 2 ∨ pref = 3 ∨ pref = 4 then
+          some (round3 U F K (if f &&& K.flagCGJ ≠ 0 then cgjRound (round2 K o) else round2 K o) f)
+        else some (if f &&& K.flagCGJ ≠ 0 then cgjRound (round2 K o) else round2 K o, f) :=
+  normalize_cluster U F K fuel pref s m ms flags hm hvs
+
+example : let m : Info := { cp := 0x301, mask := 0, cluster := 1, gidx := 0, props := { cls := 1, hi := 230 } }
+    let s : Info := { cp := 0x41, mask := 0, cluster := 0, gidx := 0, props := {} }
+    (∀ x ∈ [m], x.isMark = true) ∧ (∀ x ∈ [s, m], genU.isVS x.cp = false) := by
+  intro m s
+  constructor
+  · intro x hx; simp only [List.mem_singleton] at hx; subst hx; decide
+  · intro x hx
+    simp only [List.mem_cons, List.not_mem_nil, or_false] at hx
+    rcases hx with hx | hx <;> subst hx <;> decide +kernel
 
 /-! ## C08, normalizer part: the first two rounds keep canonical equivalence -/
 
